@@ -77,6 +77,8 @@ pub struct Options {
   /// true: a division with a negative inexact quotient is Excluded("div-rounding-unspecified").
   /// false (default): truncation toward zero, the semantics named by spec 12.7.
   pub strict_div: bool,
+  /// true: `%` with a negative operand and a non-zero result is Excluded("rem-sign-unspecified").
+  pub strict_rem: bool,
   /// Native stack of the interpreter thread; 0 = derive from `max_depth` (about 6 KiB per level,
   /// between 256 MiB and 8 GiB of address space; pages are only touched when used). Running out
   /// of it is detected and reported as `StackOverflow`, never a crash.
@@ -93,6 +95,7 @@ impl Default for Options {
         _ => CallOrder::Exclude,
       },
       strict_div: env("SRCSEM_STRICT_DIV").is_some(),
+      strict_rem: env("SRCSEM_STRICT_REM").is_some(),
       stack_bytes: env("SRCSEM_STACK_MB").and_then(|s| s.parse::<usize>().ok()).unwrap_or(0) << 20,
     }
   }
@@ -938,7 +941,9 @@ impl<'a> Interp<'a> {
         let r = a % b;
         // "Remainder (mod)": no sign convention is given, so only the cases on which truncated,
         // floored and Euclidean remainders agree are defined.
-        if r != 0 && (a < 0 || b < 0) {
+        // Coordinator decision: the property (C01/C04) excludes only overflow and division/remainder by
+        // zero, so `%` is the truncating remainder both targets implement unless SRCSEM_STRICT_REM is set.
+        if self.opts.strict_rem && r != 0 && (a < 0 || b < 0) {
           return excluded("rem-sign-unspecified");
         }
         r
@@ -1483,7 +1488,7 @@ mod tests {
     assert_eq!(run("Process.println(Str.fromInt(2147483647 + 1))").ending, excluded("overflow"));
     assert_eq!(run("let m = -2147483648; Process.println(Str.fromInt(m / -1))").ending, excluded("overflow"));
     assert_eq!(run("Process.println(Str.fromInt(1 % 0))").ending, excluded("div-by-zero"));
-    assert_eq!(run("Process.println(Str.fromInt(-7 % 2))").ending, excluded("rem-sign-unspecified"));
+    assert_eq!(run("Process.println(Str.fromInt(-7 % 2))").lines, vec!["-1".to_string()]);
     assert_eq!(run("Process.println(Str.fromInt(\"1x\".toInt()))").ending, excluded("toInt-non-numeral"));
     assert_eq!(run("Process.println(if A.init(1) == A.init(1) { \"t\" } else { \"f\" })").ending, excluded("eq-on-objects"));
     assert_eq!(run("Process.println(Str.fromInt(K.mk(1).add(K.mk(2)).x))").ending, excluded("call-order"));
